@@ -145,6 +145,7 @@ type Machine struct {
 	flagBool      map[string]value
 	flagFuncs     []flagFunc
 	onces         map[string]bool
+	syncDepth     int // > 0 while executing an atomic operation or the body of a sync.Once: accesses are synchronised by construction
 
 	methCache map[methKey]*ssa.Function
 	implCache map[implKey]bool
@@ -182,6 +183,9 @@ type globalAccess struct {
 // locksets of all its accesses on this path (Eraser's lockset refinement).
 func (m *Machine) noteGlobalAccess(g *ssa.Global, write bool) {
 	if m.epoch == 0 || g.Pkg == nil || !isRepoPkg(g.Pkg.Pkg.Path()) || strings.HasPrefix(g.Name(), "init$guard") {
+		return
+	}
+	if m.syncDepth > 0 {
 		return
 	}
 	name := g.String()
@@ -719,6 +723,7 @@ func (m *Machine) resetPathState() {
 	m.stderr = nil
 	m.flagStr, m.flagBool, m.flagFuncs = nil, nil, nil
 	m.onces = nil
+	m.syncDepth = 0
 	m.reverseMaps = m.ex.opts.ReverseMaps
 }
 
